@@ -118,15 +118,19 @@ func c12prop(ev *evid.Rec) func(rt *rapid.T) {
 			}
 			accounts = append(accounts, hlsim.AccountSpec{Login: fmt.Sprintf("u%d", i), Name: fmt.Sprintf("U%d", i), Password: "pw", Access: a})
 		}
+		accounts = append(accounts, acct("editor", "Editor", "epw", hlref.AccessOf(hlref.PrivModifyUser)))
 		var history []string
 		strictSubset := false
 		inWorld(rt, hlsim.Options{Agreement: "a", Accounts: accounts}, func(rt *rapid.T, w *hlsim.World) {
 			clients := make([]*c12client, nacc)
 			for i := range clients {
-				clients[i] = &c12client{idx: i, name: specs[i].name, read: specs[i].read, send: specs[i].send, open: specs[i].open, login: fmt.Sprintf("u%d", i)}
+				// clients 2k and 2k+1 are two sessions of one account (u<2k>): an account's chat privileges cover all its sessions
+				b := i - i%2
+				clients[i] = &c12client{idx: i, name: specs[i].name, read: specs[b].read, send: specs[b].send, open: specs[b].open, login: fmt.Sprintf("u%d", b)}
 			}
+			editor := loginAs(rt, w, "10.12.9.250:1", "editor", "epw", "editor")
 			chats := []*c12chat{}
-			nextID := 0
+			nextID := 1 // the editor holds user id 1
 			connect := func(c *c12client) {
 				nextID++
 				c.conn = w.Connect(fmt.Sprintf("10.12.0.%d:%d", c.idx+1, 1000+nextID))
@@ -357,6 +361,32 @@ func c12prop(ev *evid.Rec) func(rt *rapid.T) {
 					c.conn.Request(hlref.TranLeaveChat, fld(hlref.FChatID, []byte(ch.id)))
 					delete(ch.members, c.idx)
 					verify("leave", memberLines(ch, fmt.Sprintf("118 chat=%x user=%x", ch.id, hlref.BE16(c.id))))
+				},
+				"setAccess": func(rt *rapid.T) {
+					// an administrator edits an account's chat privileges while its sessions are connected
+					b := 2 * rapid.IntRange(0, (nacc-1)/2).Draw(rt, "account")
+					read, send, open := rapid.Bool().Draw(rt, "read"), rapid.Bool().Draw(rt, "send"), rapid.Bool().Draw(rt, "open")
+					a := hlref.AccessOf(hlref.PrivAnyName)
+					if read {
+						a.Set(hlref.PrivReadChat)
+					}
+					if send {
+						a.Set(hlref.PrivSendChat)
+					}
+					if open {
+						a.Set(hlref.PrivOpenChat)
+					}
+					history = append(history, fmt.Sprintf("set-access u%d read=%v send=%v open=%v", b, read, send, open))
+					if r := editor.Request(hlref.TranSetUser, fld(hlref.FUserLogin, hlref.Obfuscate([]byte(fmt.Sprintf("u%d", b)))), sfld(hlref.FUserName, fmt.Sprintf("U%d", b)), fld(hlref.FUserAccess, a[:]), fld(hlref.FUserPassword, []byte{0})); !okReply(r) {
+						fail("harness: set-user refused")
+					}
+					editor.TakeInbox()
+					for _, c := range clients {
+						if c.login == fmt.Sprintf("u%d", b) {
+							c.read, c.send, c.open = read, send, open
+						}
+					}
+					verify("set-access", nil)
 				},
 				"leaveNotAMember": func(rt *rapid.T) {
 					// a leave request from someone who is not in the chat (never was, only invited, or left already):
